@@ -28,7 +28,7 @@ SHORT = {"void kern<float>(int)": "kern", "void kern<int>(int)": "kern"}
 BAGS = [
     [],
     [("op", "aten::add", 2)],
-    [("op", "aten::add", 2), ("op", "aten::add", 3), ("op", "aten::mul", 1)],
+    [("op", "aten::add", 2), ("op", "aten::add", 3), ("op", "aten::mul", 1), ("anno", "ProfilerStepHook", 1)],  # a name that merely starts like a step
     [("op", "aten::add", 2), ("anno", "aten::add", 5), ("anno", "aten::mul", 1)],   # one name under two categories
     [("k", "void kern<float>(int)", 4), ("k", "void kern<int>(int)", 2), ("op", "aten::mul", 5)],
     [("k", "Memcpy DtoD (Device -> Device)", 1), ("op", "aten::add", 7)],
